@@ -235,8 +235,30 @@ def main_check(pid, tier, seed, replay=None):
         tr_info[tr.__name__] = info
         if not ok:
             ctx.broken.append(f"translator:{tr.__name__}: {str(info)[:300]}")
+    # 1b. the generated files this property does not rest on are regenerated too - the driver is built from all of them, and a file
+    # left behind by an earlier run on another tree must not decide this one; when such a file cannot be regenerated, or the driver does
+    # not build with it, the committed version stands in for it (it is another property's obligation, reported by that property's check)
+    from . import setup as vsetup
+    own = {tr.__name__ for tr in prop.get("translators", [])}
+    foreign = [(n, g) for n, g in vsetup.TRANSLATORS if ("tr_" + n) not in own]
+
+    def restore_committed(gen):
+        rcg, og = core.run(["git", "-C", core.VERIF, "show", "HEAD:lean/TinodeVerif/Gen/" + gen], timeout=60)
+        if rcg == 0 and og.strip():
+            open(os.path.join(core.LEAN, "TinodeVerif", "Gen", gen), "w").write(og)
+            return True
+        return False
+
+    for n, g in foreign:
+        ok, info = core.run_translator(n, g, ctx.log)
+        if not ok:
+            restore_committed(g)
     # 2. proofs
     rc0, out0 = core.lake_build(["driver"], ctx.log)
+    if rc0 != 0 and foreign:
+        for n, g in foreign:
+            restore_committed(g)
+        rc0, out0 = core.lake_build(["driver"], ctx.log)
     if rc0 != 0:
         ctx.say(f"[{pid}] the Lean driver does not build:")
         for e in re.findall(r"error: ([^\n]*)", out0)[:6]:
